@@ -21,6 +21,8 @@ requests
         -> `ok <Type:loc:idx=S;S|idx=S>*`  |  `err:<Exception>`
   yield  <nRoots> <nPer> <Type> <active id> <line>*   -> `ok <in-states>` | `err:<Exception>`
   tagger <nRoots> <nPer> <Type> <leaf ids> <line>*    -> `ok <in-states>` | `err:<Exception>`
+  shipped                                   -> names of the factor-set files the theorems talk about
+  shipped <file name>                       -> `<nPer> <line>*` of the table `JF.FactorMaps.shipped`
 -/
 namespace JF.Driver
 open JF.CellTaggers JF.FactorMaps
@@ -97,5 +99,10 @@ def factorComp : Comp := Comp.pure fun
       match instantiate s (lines.map line) [] with
       | .error e => "err:" ++ e
       | .ok fs => showRes (taggerYield s fs ty (tups leaves))
+  | ["shipped"] => joinSp (shipped.map fun f => f.1)
+  | ["shipped", name] =>
+      match shipped.lookup name with
+      | none => "unknown"
+      | some (n, lines) => joinSp (toString n :: lines.map fun ln => showTup ln.idx ++ ":" ++ ln.ty)
   | _ => "bad-op"
 end JF.Driver
